@@ -84,7 +84,7 @@ func scenarioC09(r *Run) {
 	ent := NewEntropy(uint64(t.U32("entropy.seed")))
 	so := SpecOpts{MaxExtra: 4, MaxSigner: 3, Cheap: true, BigOK: bigOK(r, "c09.big")}
 	if t.Bool(1, 6, "c09.manylabels") {
-		so.MaxExtra = 30
+		so.MaxExtra = []int{30, 60, 100}[t.Choose(3, "c09.manylabels.n")] // buckets beyond 23 entries (two-octet map heads) and well beyond
 	}
 	if t.Bool(1, 6, "c09.tagged") {
 		so.TaggedProtected = true
